@@ -34,6 +34,10 @@ type C01Case struct {
 	GateReply bool      `json:"gate_reply"` // hold reply writes likewise
 	Tape      []byte    `json:"tape"`
 	TickMs    int       `json:"tick_ms,omitempty"` // virtual time that passes at every quiescent point of the schedule
+	// KeyReturns (demux and proxy topologies): before the calls, every client makes one warm-up call and the Demux in
+	// front of the server is then told to Cancel that client's key - the server side of the connection is gone; the calls
+	// of the case are the first envelopes of the key's next life
+	KeyReturns bool `json:"key_returns,omitempty"`
 }
 
 func c01Reply(req, pad []byte) []byte {
@@ -88,6 +92,7 @@ func genC01(t *rapid.T) C01Case {
 	c.GateReply = rapid.Bool().Draw(t, "gate_reply")
 	c.Tape = rapid.SliceOfN(rapid.Byte(), 0, 3*n+8).Draw(t, "tape")
 	c.TickMs = rapid.SampledFrom([]int{0, 0, 1, 20, 2000}).Draw(t, "tick_ms")
+	c.KeyReturns = c.Topo.Kind != "direct" && rapid.IntRange(0, 2).Draw(t, "key_returns") == 0
 	return c
 }
 
@@ -117,6 +122,7 @@ func execC01(t *testing.T, c C01Case) (v Verdict) {
 	var hmu sync.Mutex
 	seen := make([][][]byte, n) // requests each handler saw
 	var tapEvs []kit.Ev
+	tapStart := 0
 	var sched *kit.Sched
 	var perConn map[int][]int
 
@@ -143,7 +149,21 @@ func execC01(t *testing.T, c C01Case) (v Verdict) {
 				return c01Reply(req, c.Calls[i].Pad.Bytes()), nil
 			})
 		}
+		svc.Unary("warm", func(ctx context.Context, req []byte) ([]byte, error) { return req, nil })
 		w = kit.NewWorld(c.Topo, svc, nil, nil)
+		if c.KeyReturns && w.Demux != nil {
+			for ci := 0; ci < c.Topo.Clients; ci++ {
+				if r, err := kit.Invoke(context.Background(), w.Conn(ci), "warm", []byte{byte(ci)}); err != nil || !bytes.Equal(r, []byte{byte(ci)}) {
+					v.failf("warm-up call of client %d: %v", ci, err)
+				}
+			}
+			kit.Settle()
+			for ci := 0; ci < c.Topo.Clients; ci++ {
+				w.Demux.Cancel(kit.ClientName(ci))
+			}
+			kit.Settle()
+			tapStart = w.Tap.Len() // the wire oracle below looks at the calls of the case only
+		}
 		for _, l := range w.Links {
 			sched.AddLink(l)
 			if c.GateReq {
@@ -166,7 +186,7 @@ func execC01(t *testing.T, c C01Case) (v Verdict) {
 		sched.Run(c.Tape, 100000, nil)
 		sched.Drain()
 		kit.Settle()
-		tapEvs = w.Tap.Snapshot()
+		tapEvs = w.Tap.Snapshot()[tapStart:]
 		w.Shutdown()
 		// unblock whatever is left so that the bubble can end
 		sched.Drain()
@@ -251,7 +271,7 @@ func execC01(t *testing.T, c C01Case) (v Verdict) {
 		nclass = "2-8"
 	}
 	v.Info.Labels = []string{"topo=" + c.Topo.Kind, fmt.Sprintf("ser=%v", c.Topo.Serialize), "n=" + nclass,
-		"maxreq=" + kit.SizeClass(maxLen), fmt.Sprintf("reordered=%v", reordered), fmt.Sprintf("clients=%d", c.Topo.Clients), fmt.Sprintf("time_passes=%v", c.TickMs > 0), fmt.Sprintf("stats=%v", c.Topo.Stats)}
+		"maxreq=" + kit.SizeClass(maxLen), fmt.Sprintf("reordered=%v", reordered), fmt.Sprintf("clients=%d", c.Topo.Clients), fmt.Sprintf("time_passes=%v", c.TickMs > 0), fmt.Sprintf("stats=%v", c.Topo.Stats), fmt.Sprintf("demux_key_returns=%v", c.KeyReturns)}
 	v.Info.NonTrivial = (n >= 2 && reordered) || hasEmpty || maxLen >= 16384
 	key, _ := json.Marshal(c)
 	v.Info.Key = string(key)
